@@ -143,11 +143,16 @@ pub fn signature(mapping: &[u8], sig: &str) -> Value {
                 };
                 match d {
                     None => json!([]),
-                    Some(d) => json!([{
-                        "params": d.parameters_types().map(enc::s).collect::<Vec<_>>(),
-                        "ret": enc::s(d.return_type()),
-                        "formatted": enc::s(&d.format_signature()),
-                    }]),
+                    Some(d) => {
+                        // Display and format_signature are two views of one value
+                        let shown = d.to_string();
+                        let formatted = d.format_signature();
+                        json!([{
+                            "params": d.parameters_types().map(enc::s).collect::<Vec<_>>(),
+                            "ret": enc::s(d.return_type()),
+                            "formatted": enc::s(if shown == formatted { &formatted } else { "Display differs from format_signature" }),
+                        }])
+                    }
                 }
             })
         }));
